@@ -2,13 +2,14 @@
   C17 — instantiating constants.
 
   Model (literal transcription, core Lean only) of
-    * `TTCFG.instantiate_constants`            synth/syntax/grammars/ttcfg.py:359-376
+    * `TTCFG.instantiate_constants`            synth/syntax/grammars/ttcfg.py:368-385
     * `UCFG.instantiate_constants`             synth/syntax/grammars/u_cfg.py:198-213
-    * `ProbDetGrammar.instantiate_constants`   synth/syntax/grammars/tagged_det_grammar.py:216-231
-    * `TaggedDetGrammar.instantiate_constants` synth/syntax/grammars/tagged_det_grammar.py:99-112
-    * `ProbUGrammar.instantiate_constants`     synth/syntax/grammars/tagged_u_grammar.py:258-276
-    * `Program.all_constants_instantiation`    synth/syntax/program.py:66-69, 189-193, 308-317
-    * `ProbDetGrammar.probability`             tagged_det_grammar.py:144-162
+    * `ProbDetGrammar.instantiate_constants`   synth/syntax/grammars/tagged_det_grammar.py:219-234
+    * `TaggedDetGrammar.instantiate_constants` synth/syntax/grammars/tagged_det_grammar.py:102-115
+    * `ProbUGrammar.instantiate_constants`     synth/syntax/grammars/tagged_u_grammar.py:266-284
+      (`TaggedUGrammar.instantiate_constants`  tagged_u_grammar.py:103-118 has the same loop)
+    * `Program.all_constants_instantiation`    synth/syntax/program.py:68-71, 190-194, 311-320
+    * `ProbDetGrammar.probability`             tagged_det_grammar.py:146-164
   and the specification of the property (`isInst`, `prob`, `Normalised`), stated without the
   algorithm.
 
